@@ -22,7 +22,7 @@ ASSUMPTIONS = [
     "errors raised when a definition is finalized (union arity, name collisions, extent, missing @sealed/@extent) carry no "
     "line: only their path is checked; the case-only-difference error is excluded (which file is at fault is a matter of taste)",
 ]
-MIN_MONITORS = {"fault-path": 4000, "fault-line": 3000, "print-evaluation": 2500, "print-delivery": 2500}
+MIN_MONITORS = {"fault-path": 3500, "fault-line": 3000, "print-evaluation": 2500, "print-delivery": 2500}
 THOROUGH_MIN_SCALE = 10
 
 
